@@ -5,7 +5,27 @@ on characters where they agree with Rust's)."""
 import os, re, subprocess, itertools
 import replay_arith
 
-ALPHABET = ["a", "z", "B", "0", "_", "+", "*", "/", ".", "\\", "!", ";", "[", "]", "{", "}", "(", ",", "|", "%", " ", "'", "\u00e9", "\u00c9", "\u03bb"]
+ALPHABET = ["a", "z", "B", "0", "_", "+", "*", "/", ".", "\\", "!", ";", "[", "]", "{", "}", "(", ",", "|", "%", " ", "'", "\u00e9", "\u00c9", "\u03bb",
+            "\x01", "\x7f", "\x85", "\x9b", "\u00a0", "\n", "\t"]
+NAMED = {"'": "\\'", "\n": "\\n", "\r": "\\r", "\t": "\\t", "\x0b": "\\v", "\x0c": "\\f", "\x08": "\\b", "\x07": "\\a", "\\": "\\\\"}
+
+
+def quoted_text(s):
+    """the text writeq must produce for an atom that is quoted: the nine ISO escapes, other whitespace / control characters
+    as \\xHH\\, everything else itself"""
+    import unicodedata
+    out = ["'"]
+    for c in s:
+        if c in NAMED:
+            out.append(NAMED[c])
+        elif c in (" ", '"'):
+            out.append(c)
+        elif c.isspace() or unicodedata.category(c) == "Cc":
+            out.append("\\x%x\\" % ord(c))
+        else:
+            out.append(c)
+    return "".join(out) + "'"
+
 GRAPHIC = set("#$&*+-./:<=>?@^~\\")
 SOLO = set("!(),;[]{}|%")
 LAYOUT = set(" \r\n\t\x0b\x0c")
@@ -114,6 +134,9 @@ def replay_all(repo, by_ob, scratch, log):
         if i not in got:
             continue
         plain = got[i] == a
+        if not plain and not unquoted(a) and got[i] != quoted_text(a) and len(fails) < 40:
+            fails.append({"goal": "atom_codes(A, %s), writeq(A)" % [ord(c) for c in a], "got": ["v", got[i]], "expected": ["v", quoted_text(a)], "op": "writeq", "a": a, "b": None})
+            continue
         if plain != unquoted(a) and len(fails) < 40:
             fails.append({"goal": "atom_codes(A, %s), writeq(A)" % [ord(c) for c in a], "got": ["v", got[i]],
                           "expected": ["v", "unquoted" if unquoted(a) else "quoted"], "op": "writeq", "a": a, "b": None})
